@@ -234,12 +234,26 @@ Section Sim.
       inversion Et; subst; reflexivity.
   Qed.
 
+  Lemma scan_rep_inituri m r : scan_rep m = Ok r -> r_inituri r = m_inituri m.
+  Proof.
+    unfold scan_rep. intros H.
+    match type of H with (do rp <- ?T; _) = _ => destruct T as [rp| |] eqn:Ea end; cbn [bind] in H; try discriminate.
+    assert (Hid : r_inituri rp = m_inituri m).
+    { unfold add_init in Ea. cbn [r_mediauri r_ctype r_mediats r_preenc] in Ea.
+      destruct (uri_kind (m_mediauri m)); try discriminate;
+        (destruct (String.eqb (m_ctype m) "image"); [inversion Ea; reflexivity|]);
+        (destruct (m_init m); [discriminate|]); cbn in Ea; inversion Ea; reflexivity. }
+    match type of H with (do tab <- ?T; _) = _ => destruct T as [[[mediats sg] dsd]| |] end; cbn [bind] in H; try discriminate.
+    inversion H; subst r; cbn. exact Hid.
+  Qed.
+
   (** Reading back what write mode stored from a scan gives the stored fields of the scan. *)
   Lemma load_json_of_scan m r :
     scan_rep m = Ok r -> init_ts_ok m ->
-    load_json (enc (to_stored r)) (m_init m) = Ok (stored_fields r).
+    load_json (enc (to_stored r)) (m_init_at m) = Ok (stored_fields r).
   Proof.
     intros Hs Hts. unfold Cache.load_json. rewrite dec_enc. fold (stored_fields r).
+    change (s_inituri (to_stored r)) with (r_inituri r). rewrite (scan_rep_inituri _ _ Hs). fold (m_init m).
     destruct (scan_rep_shape _ _ Hs) as (Hu & Hc & Hk & Hi).
     unfold add_init.
     assert (Hu' : r_mediauri (stored_fields r) = m_mediauri m) by (rewrite <- Hu; reflexivity).
@@ -585,6 +599,26 @@ Section WriteMode.
     rewrite H1 in Hr. specialize (Hr (fun a id => or_intror (conj eq_refl eq_refl))).
     destruct (discover mode_write l c1) as [[l2 c2]| |]; cbn in Hr; try contradiction.
     destruct Hr as [<- Hc]. exists c2. split; [reflexivity|]. intros a id. destruct (Hc a id) as [E|[E1 E2]]; congruence.
+  Qed.
+
+  (** Write mode refreshes: whatever the directory held before (files of an earlier version of the
+      asset, truncated or corrupt files, files of other assets), after a write run every file is
+      the one a write run into an empty directory produces, or a file the run did not touch (no
+      representation with that name was scanned successfully). *)
+  Theorem write_refreshes l c assets c1 :
+    discover mode_write l c = Ok (assets, c1) ->
+    exists c0, discover mode_write l (fun _ _ => CAbsent) = Ok (assets, c0) /\
+               forall a id, c1 a id = c0 a id \/ (c1 a id = c a id /\ c0 a id = CAbsent).
+  Proof.
+    intros H1.
+    set (CR := fun (x y : cache B) => forall a id, x a id = y a id \/ (x a id = c a id /\ y a id = CAbsent)).
+    assert (Hstep : forall ci di apath m, True -> CR ci di -> CR (wstep B enc mode_write ci apath m) (wstep B enc mode_write di apath m)).
+    { intros ci di apath m _ Hc a id. unfold wstep. destruct (scan_rep m) as [r| |]; try apply Hc.
+      cbn [do_write mode_write]. unfold cache_set. destruct (String.eqb apath a && String.eqb (m_id m) id); [left; reflexivity|apply Hc]. }
+    pose proof (discover_two B enc dec mode_write mode_write eq_refl eq_refl (fun _ _ => True) CR Hstep l c (fun _ _ => CAbsent) (mpd_occ_true l)) as Hr.
+    rewrite H1 in Hr. specialize (Hr (fun a id => or_intror (conj eq_refl eq_refl))).
+    destruct (discover mode_write l (fun _ _ => CAbsent)) as [[l2 c2]| |]; cbn in Hr; try contradiction.
+    destruct Hr as [<- Hc]. exists c2. split; [reflexivity|exact Hc].
   Qed.
 
   (** Write mode produces a good cache directory: every file it leaves is the written form of the
